@@ -106,7 +106,43 @@ fn install_sweep(cfg: Config, targets: &[String]) -> bool {
     .is_ok()
 }
 
+/// A build that was INTERRUPTED earlier on this thread must not matter: a configuration with the case's own names in
+/// which one appender name is declared twice and the discarded duplicate panics when it is dropped - the panic
+/// unwinds out of the builder and is caught by the caller (run before every case).
+fn interrupted_build(case: &Val) {
+    #[derive(Debug)]
+    struct PanicsOnDrop;
+    impl log4rs::append::Append for PanicsOnDrop {
+        fn append(&self, _r: &log::Record) -> anyhow::Result<()> {
+            Ok(())
+        }
+        fn flush(&self) {}
+    }
+    impl Drop for PanicsOnDrop {
+        fn drop(&mut self) {
+            if !std::thread::panicking() {
+                panic!("an appender that panics when dropped");
+            }
+        }
+    }
+    let c = case.l();
+    let mut names: Vec<String> = c[0].l().iter().map(|a| a.str()).collect();
+    names.extend(c[3].l().iter().map(|l| l.l()[0].str()));
+    names.push("spare".to_string());
+    let first = names[0].clone();
+    let _ = std::panic::catch_unwind(std::panic::AssertUnwindSafe(|| {
+        let mut b = Config::builder();
+        for n in &names {
+            b = b.appender(Appender::builder().build(n.clone(), Box::new(RecAppender { idx: 0, fails: false, rec: new_rec() })));
+            b = b.logger(Logger::builder().build(n.clone(), log::LevelFilter::Info));
+        }
+        b = b.appender(Appender::builder().build(first.clone(), Box::new(PanicsOnDrop)));
+        let _ = b.build_lossy(Root::builder().build(log::LevelFilter::Info));
+    }));
+}
+
 fn run(case: &Val) -> Val {
+    interrupted_build(case);
     let rec = new_rec();
     let mut targets: Vec<String> = case.l()[3].l().iter().map(|l| l.l()[0].str()).collect();
     targets.push(String::new());
